@@ -64,6 +64,10 @@ def parseOpLine (line : String) : Option (Option Op) :=
     if rs.all Option.isSome then some (some (.sendres (rs.filterMap id))) else none
   | ["write", h] => (parseHex h).bind fun d => if d.any (· == 0) then none else some (some (.write false d))
   | ["vwrite", h] => (parseHex h).bind fun d => if d.any (· == 0) then none else some (some (.write true d))
+  | ["vwrite2", h1, h2] => do
+    let a ← parseHex h1
+    let b ← parseHex h2
+    if (a ++ b).any (· == 0) then none else some (some (.write true (a ++ b)))
   | ["flush"] => some (some .flush)
   | ["cycle"] => some (some .cycle)
   | ["wready"] => some (some .wready)
@@ -96,6 +100,7 @@ def render : Ev → String
   | .dump bs => s!"dump {renderHex bs}"
   | .snoop _ d => s!"snoop {d.length} {snoopSum d}"
   | .lpcerr => "lpcerr"
+  | .vreq d => s!"vreq {renderHex d}"
   | .fault w => s!"crash {w}"
 
 def parseRes (t : String) : Option Res :=
@@ -125,6 +130,7 @@ def parseEv (line : String) : Ev :=
     | ["dump", h] => do some (.dump (← parseHex h))
     | ["snoop", _, _] => some (.snoop 0 [])
     | ["lpcerr"] => some .lpcerr
+    | ["vreq", h] => do some (.vreq (← parseHex h))
     | _ => none
   match r with
   | some e => e
@@ -280,7 +286,7 @@ def runJudge (body : List String) : List String :=
   let users := (tagged.map (·.1)).eraseDups
   let vs := users.flatMap fun k =>
     let evs := (tagged.filter (·.1 == k)).map (fun p => parseEv p.2)
-    (judgeEv evs).map (fun v => s!"{v} u{k}")
+    (judgeEv evs ++ judgeFmt evs).map (fun v => s!"{v} u{k}")
   match vs with
   | [] => ["ok"]
   | vs => vs.map (fun v => s!"bad {v}")
